@@ -241,7 +241,11 @@ Definition balance_ok (total k M : nat) (ps : list nat) : bool :=
 Definition spread_le_1 (l : list nat) : bool :=
   forallb (fun a => forallb (fun b => a <=? S b) l) l.
 
-Definition kfold_holds (labels : list nat) (n_splits : nat) (balance : bool)
+(** [shuffle] (the oracle) fixes the order of the block ids; "balancing is
+    achievable" means that partition_by_sum finds split points for the block
+    populations in that order - a warning (and the fallback to equal block
+    counts) is legitimate only when balancing was requested and it does not *)
+Definition kfold_holds (labels : list nat) (n_splits : nat) (shuffle : option (list nat)) (balance : bool)
     (obs : option (bool * list (list nat * list nat))) : bool :=
   let ids := usort labels in
   let nb := length ids in
@@ -255,7 +259,11 @@ Definition kfold_holds (labels : list nat) (n_splits : nat) (balance : bool)
       forallb (split_ok labels) splits &&
       forallb (fun s => negb (length (snd s) =? 0)) splits &&
       is_perm_seq (concat (map snd splits)) n &&
-      (if warned then balance else true) &&
+      (if warned
+       then balance &&
+            match partition_by_sum (map (count labels) (block_ids labels shuffle)) n_splits with
+            | None => true | Some _ => false end
+       else true) &&
       (if balance && negb warned
        then balance_ok n n_splits (list_max (map (count labels) ids))
                        (map (fun s => length (snd s)) splits)
@@ -272,7 +280,7 @@ Definition kfold_out_eqb (a b : option (bool * list (list nat * list nat))) : bo
 Definition c11_kfold_case (labels : list nat) (n_splits : nat) (shuffle : option (list nat))
     (balance repro : bool) (obs : option (bool * list (list nat * list nat))) : verdict :=
   mk_verdict (kfold_out_eqb (block_kfold labels n_splits shuffle balance) obs)
-             (repro && kfold_holds labels n_splits balance obs).
+             (repro && kfold_holds labels n_splits shuffle balance obs).
 
 (** partition_by_sum called directly *)
 Definition strictly_inside (len : nat) (idx : list nat) : bool :=
